@@ -45,3 +45,10 @@ package v2
 //@   ensures ret.DryRun <==> (lib("strings.ToUpper", qparam(r, "dryRun")) == "YES" || lib("strings.ToUpper", qparam(r, "dryRun")) == "TRUE" || qparam(r, "dryRun") == "1")
 //@   ensures ret.IdempotencyKey == lib("(net/http.Header).Get", r.Header, "Idempotency-Key")
 //@   property C14 C07
+
+// C19: every handler this router registers for GET / HEAD / OPTIONS, and every repository middleware it installs,
+// issues no write command (obligations are generated per registration by the chi model). The read-only filter
+// itself is installed by the parent router.
+//@ func v2.NewRouter
+//@   assumes !roMode
+//@   property C19
